@@ -239,8 +239,20 @@ def lifecycle_script(rng, shape, length):
                 active.append(new[0])
             else:
                 dora(k)
-        elif x < 0.40:
+        elif x < 0.36:
             dora(k, stale_xid=rng.random() < 0.25)                       # re-discovery (INIT)
+        elif x < 0.40:
+            # interleaved handshakes: k re-discovers, another client completes its handshake, then k selects
+            j = rng.choice([c for c in pool if c != k])
+            xk = rng.choice(["x1", "x2", "x3"])
+            out.append({"a": "discover", "k": k, "m": k, "req": NOA, "reqs": "ip:" + k, "xid": xk, "prl": "none"})
+            dora(j)
+            if j not in active:
+                active.append(j)
+            out.append({"a": "request", "k": k, "m": k, "sid": "us", "ropt": NOA, "ropts": "offer:" + k, "ci": NOA, "cis": "lit",
+                        "srck": "zero", "xid": xk, "prl": "none"})
+            if rng.random() < 0.5:
+                out.append({"a": "restart"})
         elif x < 0.48:
             out.append({"a": "request", "k": k, "m": k, "sid": "none", "ropt": NOA, "ropts": "ip:" + k, "ci": NOA, "cis": "lit",
                         "srck": "zero", "xid": rng.choice(["x1", "x2"]), "prl": "none"})   # INIT-REBOOT for the old address
@@ -610,7 +622,7 @@ def plan(ctx, check):
         p.append(dict(kind="mc", label="mc-wide-secondary-d4", shape=0, mode="secondary", depth=4, kw=wide, every=16, fail_every=8))
         p.append(dict(kind="mc", label="mc-wide-primary-d4", shape=0, mode="primary", depth=4, kw=wide, every=16, fail_every=8))
         p.append(dict(kind="mc", label="mc-core-nice-d5", shape=0, mode="nice", depth=5, kw=core, every=16, fail_every=8))
-        p.append(dict(kind="mc", label="mc-xmac-secondary-d4", shape=0, mode="secondary", depth=4, kw=xmac, every=12, fail_every=6))
+        p.append(dict(kind="mc", label="mc-xmac-secondary-d3", shape=0, mode="secondary", depth=3, kw=dict(xmac, special=(3, 7), maxtog=1), every=2, fail_every=1))
         p.append(dict(kind="mc", label="mc-lower-nice-d4", shape=2, mode="nice", depth=4, kw=low, every=12, fail_every=6))
         p.append(dict(kind="sim", label="sim-full-primary-d10", shape=0, mode="primary", depth=10, num=300, kw=dict(full, ncid=3)))
         p.append(dict(kind="rand", n=90, length=30))
@@ -692,15 +704,17 @@ def run_family(ctx, check, plan_fn=None):
                 hs.append(cex[0])
             groups.append(Group(it["label"], it["shape"], [0, 1], it["mode"], hs))
         elif it["kind"] == "rand":
-            per = max(1, it["n"] // 9)
-            for shape in (2, 3, 4):
+            shapes = (3, 4) if ctx.quick else (2, 3, 4)
+            per = max(1, it["n"] // (3 * len(shapes)))
+            for shape in shapes:
                 for mode in MODES:
                     groups.append(Group("rand-s%d-%s" % (shape, mode), shape, [shape], mode,
                                         [random_script(rng, shape, it["length"]) for _ in range(per)]))
         else:
             # client life cycles on every prefix configuration and mode; a third of them with one reused receive buffer
-            per = max(1, it["n"] // 12)
-            for shape in (0, 2, 3, 4):
+            shapes = (0, 2) if ctx.quick else (0, 2, 3, 4)
+            per = max(1, it["n"] // (3 * len(shapes)))
+            for shape in shapes:
                 for mode in MODES:
                     hs = [lifecycle_script(rng, shape, it["length"]) for _ in range(per)]
                     cut = len(hs) // 3
